@@ -227,8 +227,29 @@ def run_regen(params, ch):
     em = b'\x00\x01' + b'\xff' * (256 - 3 - len(SHA1_PREFIX) - 20) + b'\x00' + SHA1_PREFIX + tok
     sigs = []
     from adb_shell.auth.keygen import write_public_keyfile
+    import socket
+    # who generates the key changes between the generations (the seams are the OS calls, not the library): the comment of the public
+    # key file names the user and host at the time the file is written
+    idents = [(None, None, None), ('alice', 'buildbox', b' alice@buildbox'), (OSError('no controlling terminal'), 'buildbox', b' unknown@buildbox')]
+    real_login, real_host = os.getlogin, socket.gethostname
     for gen in range(3):
-        keygen(path)
+        login, host, want_comment = idents[gen]
+        try:
+            if login is not None:
+                def fake_login(_l=login):
+                    if isinstance(_l, Exception):
+                        raise _l
+                    return _l
+                os.getlogin = fake_login
+                socket.gethostname = lambda _h=host: _h
+            keygen(path)
+        finally:
+            os.getlogin, socket.gethostname = real_login, real_host
+        if want_comment is not None:
+            raw0 = open(path + '.pub', 'rb').read()
+            if not raw0.endswith(want_comment) or raw0[:-len(want_comment)].count(b' '):
+                viol.append({'msg': 'generation %d: the public key file written while the user/host were %r ends with %r, expected %r' % (
+                    gen, (str(login), host), raw0[-28:], want_comment)})
         _key, n, e = load_numbers(path)
         others = [k for k in SIGNERS if k != params['signer']]
         for kind in ([params['signer']] + others if params['order'] == 0 else others + [params['signer']]):
